@@ -122,7 +122,13 @@ func buildProperty(n *sx.Node) *schema.PropertySchema {
 	return p
 }
 
+// extraSchemaBuilders: descriptor heads added by other families' files (e.g. "xobject").
+var extraSchemaBuilders = map[string]func(*sx.Node) schema.Type{}
+
 func buildObject(n *sx.Node) *schema.ObjectSchema {
+	if f, ok := extraSchemaBuilders[n.Head()]; ok && n.Head() != "object" {
+		return f(n).(*schema.ObjectSchema)
+	}
 	props := map[string]*schema.PropertySchema{}
 	for _, p := range n.List[3].List {
 		props[p.List[0].Str] = buildProperty(p.List[1])
@@ -218,6 +224,9 @@ func buildSchema(n *sx.Node) schema.Type {
 		return schema.NewNamespacedRefSchema(n.List[1].Str, n.List[2].Str, disp)
 	case "scope":
 		return buildScope(n)
+	}
+	if f, ok := extraSchemaBuilders[n.Head()]; ok {
+		return f(n)
 	}
 	panic("bad schema " + n.String())
 }
